@@ -20,7 +20,7 @@ import (
 )
 
 type Step struct {
-	Op       string  `json:"op"` // write | spawn | sleep | ignoreterm | exit | kill | closepipes | mark
+	Op       string  `json:"op"` // write | spawn | sleep | ignoreterm | exit | kill | closepipes | mark | stopself
 	Fd       int     `json:"fd,omitempty"`
 	Data     string  `json:"data,omitempty"`
 	Drain    bool    `json:"drain,omitempty"`
@@ -99,6 +99,9 @@ func run(s *Script) {
 			} else {
 				go func() { _ = cmd.Wait() }()
 			}
+		case "stopself":
+			// suspend this process (SIGSTOP): a suspended member must still be killed by a stop request
+			_ = syscall.Kill(os.Getpid(), syscall.SIGSTOP)
 		case "exit":
 			os.Exit(st.Code)
 		case "kill":
